@@ -18,6 +18,8 @@ def rootOfUnityN : Nat := fromMont Gen.rootOfUnityMont
 def rootOfUnityInvN : Nat := fromMont Gen.rootOfUnityInvMont
 def twoInvN : Nat := fromMont Gen.twoInvMont
 def deltaN : Nat := fromMont Gen.deltaMont
+/-- `ZETA` (a primitive cube root of unity; `g_coset` of `EvaluationDomain::new`). -/
+def zetaN : Nat := fromMont Gen.zetaMont
 
 /-- `omega` of the `2^k` domain: `ROOT_OF_UNITY^(2^(S−k))`. -/
 def omegaN (k : Nat) : Nat := powMod rootOfUnityN (2 ^ (Gen.frS - k)) frR
